@@ -1,11 +1,131 @@
-/-  C12/Theorems — the ledger for property C12 (every theorem here is audited). -/
-import OttoVerif.C12.Spec
-import OttoVerif.C12.Model
-namespace OttoVerif.C12.Thm
-open OttoVerif.C12
+/-
+  C12/Theorems — the ledger for property C12.  Every `theorem` in this file is audited
+  (`#print axioms` ⊆ {propext, Classical.choice, Quot.sound}) on every run.
+  All calendar statements quantify over ALL integers (no range), `omega` does the floor divisions.
 
-theorem dayFromYear_step (y : Int) : Spec.DayFromYear (y + 1) - Spec.DayFromYear y = Spec.DaysInYear y := by
-  unfold Spec.DayFromYear Spec.DaysInYear
-  split <;> (try split) <;> (try split) <;> omega
+  `Lem.validState t` is the Date object otto holds for the integral time value t:
+  time = Unix(t div 1000, (t mod 1000)·10^6 ns), epoch = t, value = t, isNaN = false.
+-/
+import OttoVerif.C12.Lemmas
+namespace OttoVerif.C12.Thm
+open OttoVerif.C12 OttoVerif.C12.Lem OttoVerif.F64
+
+-- ================================================================ the ES5 algebra itself (Spec-internal)
+
+/-- §15.9.1.3: DayFromYear steps by DaysInYear, for every integer year. -/
+theorem dayFromYear_step (y : Int) : Spec.DayFromYear (y + 1) - Spec.DayFromYear y = Spec.DaysInYear y :=
+  Lem.dayFromYear_step y
+
+/-- §15.9.1.3 "YearFromTime(t) = the largest integer y such that TimeFromYear(y) ≤ t":
+    the executable `Spec.YearFromTime` is exactly that, for every integer t. -/
+theorem year_from_time (t y : Int) :
+    (Spec.TimeFromYear y ≤ t ∧ t < Spec.TimeFromYear (y + 1)) ↔ y = Spec.YearFromTime t := by
+  have hb := yft_bounds t
+  unfold Spec.TimeFromYear
+  constructor
+  · intro ⟨h1, h2⟩
+    apply year_unique <;> unfold Spec.Day <;> omega
+  · intro h; subst h; unfold Spec.Day at hb; omega
+
+theorem year_from_time_largest (t y : Int) (h : Spec.TimeFromYear y ≤ t) : y ≤ Spec.YearFromTime t := by
+  have hb := yft_bounds t
+  by_cases hlt : Spec.YearFromTime t < y
+  · have := dayFromYear_le (Spec.YearFromTime t + 1) y (by omega)
+    unfold Spec.TimeFromYear at h; unfold Spec.Day at hb; omega
+  · omega
+
+/-- ranges of the civil fields (§15.9.1.4–.5, .10) -/
+theorem field_ranges (t : Int) :
+    (0 ≤ Spec.MonthFromTime t ∧ Spec.MonthFromTime t ≤ 11) ∧ (1 ≤ Spec.DateFromTime t ∧ Spec.DateFromTime t ≤ 31) ∧
+    (0 ≤ Spec.WeekDay t ∧ Spec.WeekDay t ≤ 6) ∧ (0 ≤ Spec.HourFromTime t ∧ Spec.HourFromTime t ≤ 23) ∧
+    (0 ≤ Spec.MinFromTime t ∧ Spec.MinFromTime t ≤ 59) ∧ (0 ≤ Spec.SecFromTime t ∧ Spec.SecFromTime t ≤ 59) ∧
+    (0 ≤ Spec.msFromTime t ∧ Spec.msFromTime t ≤ 999) := by
+  have hm := monthFromTime_range t
+  have hr := dayWithinYear_range t
+  have hl := inLeapYear_01 t
+  refine ⟨hm, ?_, ?_, ?_, ?_, ?_, ?_⟩
+  · rw [dateFromTime_eq]
+    have hmo : Spec.MonthFromTime t = monthOf (Spec.DayWithinYear t) (Spec.InLeapYear t) := rfl
+    generalize Spec.MonthFromTime t = m at *
+    generalize Spec.DayWithinYear t = d at *
+    generalize Spec.InLeapYear t = l at *
+    subst hmo
+    unfold monthOf
+    repeat' split
+    all_goals (simp only [Spec.monthStart]; omega)
+  all_goals (simp only [Spec.WeekDay, Spec.HourFromTime, Spec.MinFromTime, Spec.SecFromTime, Spec.msFromTime]; omega)
+
+/-- §15.9.1.12 step 7: the `t` that MakeDay is told to find exists and is the one `Spec.MakeDay` uses -/
+theorem makeDay_finds_t (y m : Int) :
+    let t := Spec.MakeDay y m 1 * 86400000
+    Spec.YearFromTime t = y + m / 12 ∧ Spec.MonthFromTime t = m % 12 ∧ Spec.DateFromTime t = 1 ∧
+      ∀ dt, Spec.MakeDay y m dt = Spec.Day t + dt - 1 := by
+  intro t
+  have hl : (if Spec.DaysInYear (y + m / 12) = 366 then (1:Int) else 0) = 0 ∨ (if Spec.DaysInYear (y + m / 12) = 366 then (1:Int) else 0) = 1 := by
+    split <;> simp
+  have hms := monthStart_range (m % 12) _ (by omega) hl
+  have hday : Spec.Day t = Spec.DayFromYear (y + m / 12) + Spec.monthStart (m % 12) (if Spec.DaysInYear (y + m / 12) = 366 then 1 else 0) := by
+    show (Spec.MakeDay y m 1 * 86400000) / 86400000 = _
+    unfold Spec.MakeDay; simp only []; omega
+  have hstep := dayFromYear_step (y + m / 12)
+  have hyear : Spec.YearFromTime t = y + m / 12 := by
+    symm; apply year_unique
+    · omega
+    · have hd : Spec.DaysInYear (y + m / 12) = 365 ∨ Spec.DaysInYear (y + m / 12) = 366 := by
+        unfold Spec.DaysInYear; repeat' split
+        all_goals simp
+      rcases hd with hd | hd <;> simp only [hd] at hms hday <;> omega
+  have hleap : Spec.InLeapYear t = (if Spec.DaysInYear (y + m / 12) = 366 then 1 else 0) := by
+    unfold Spec.InLeapYear; rw [hyear]
+  have hdwy : Spec.DayWithinYear t = Spec.monthStart (m % 12) (if Spec.DaysInYear (y + m / 12) = 366 then 1 else 0) := by
+    unfold Spec.DayWithinYear; rw [hyear]; omega
+  have hmonth : Spec.MonthFromTime t = m % 12 := by
+    rw [monthFromTime_eq, hdwy, hleap]; exact monthOf_monthStart _ _ (by omega) hl
+  refine ⟨hyear, hmonth, ?_, ?_⟩
+  · rw [dateFromTime_eq, hmonth, hdwy, hleap]; omega
+  · intro dt; rw [hday]; unfold Spec.MakeDay; simp only []
+
+/-- civil round trip: recomposing the fields of t with MakeDay/MakeTime/MakeDate gives t back -/
+theorem civil_roundtrip (t : Int) :
+    Spec.MakeDate (Spec.MakeDay (Spec.YearFromTime t) (Spec.MonthFromTime t) (Spec.DateFromTime t))
+      (Spec.MakeTime (Spec.HourFromTime t) (Spec.MinFromTime t) (Spec.SecFromTime t) (Spec.msFromTime t)) = t := by
+  rw [makeDay_roundtrip, makeTime_roundtrip, makeDate_roundtrip]
+
+-- ================================================================ otto (model) = ES5 (spec)
+
+/-- every getUTC* / valueOf of a valid Date object is the §15.9.1 function of its time value —
+    for every integer t (negative times: floor, not truncation). -/
+theorem accessors (t : Int) : observe (validState t) = Spec.observe (some t) := by
+  have hd := goAbsDate_eq _ _ (sameDay_state t)
+  simp [observe, Spec.observe, validState, goYear, goMonth, goDay, hd, goWeekday_state, goHour_state, goMinute_state,
+    goSecond_state, goMilli_state]
+
+theorem getTime_valid (t : Int) : getTime (validState t) = some t := rfl
+
+/-- time.Date composes exactly like MakeDate(MakeDay, MakeTime), for ALL integer fields -/
+theorem make_compose (y m d h mi s ms : Int) :
+    goUnixMilli (goDate y (m + 1) d h mi s (ms * 1000000)) =
+      Spec.MakeDate (Spec.MakeDay y m d) (Spec.MakeTime h mi s ms) := by
+  unfold goDate
+  simp only [goNorm12, goNorm60, goNorm24, goNorm1e9, Int.add_sub_cancel]
+  have hb := daysBefore_monthStart (m % 12) (y + m / 12) (by omega)
+  unfold goUnixMilli Spec.MakeDate Spec.MakeDay Spec.MakeTime absToUnix goDiv
+  simp only [goDaysSinceEpoch_eq]
+  simp only [Int.add_sub_cancel] at hb
+  generalize Spec.monthStart (m % 12) (if Spec.DaysInYear (y + m / 12) = 366 then 1 else 0) = MS at *
+  generalize Spec.DayFromYear (y + m / 12) = DY at *
+  have e1 : ms * 1000000 / 1000000000 = ms / 1000 := by omega
+  have e2 : ms * 1000000 % 1000000000 / 1000000 = ms % 1000 := by omega
+  have e3 : ms * 1000000 % 1000000000 ≥ 0 := by omega
+  rw [if_pos e3, e1, e2]
+  generalize goDaysBefore (m % 12) = GB at *
+  split at hb <;> rename_i hc
+  · simp only [hc, if_true]; omega
+  · simp only [hc, Bool.false_eq_true, if_false]; omega
+
+/-- Date.UTC / `new Date(y,m,…)` on converted fields = MakeDate(MakeDay, MakeTime), all of ℤ^7 -/
+theorem dateCore_eq (y m d h mi s ms : Int) :
+    dateCore y m d h mi s ms = Spec.MakeDate (Spec.MakeDay y m d) (Spec.MakeTime h mi s ms) :=
+  make_compose y m d h mi s ms
 
 end OttoVerif.C12.Thm
